@@ -543,7 +543,8 @@ func checkFrameGas(res *CaseResult, fail func(prop, rule, msg string, det ...str
 		res.Count("failed_jp_gas_checked", 1)
 		if f.exit.ErrVal == nil {
 			fail("C06", "post-failure-swallowed", "post join point failed but the frame reported success", where)
-		} else if f.exit.ErrVal != avm.ErrExecutionReverted && att.Left != 0 {
+		} else if post.errText != avm.ErrExecutionReverted.Error() && att.Left != 0 {
+			// whatever the callee itself did (it may have reverted), a non-revert failure of the post join point forfeits the frame's gas
 			fail("C06", "post-failure-keeps-gas", fmt.Sprintf("post join point failed with %q (not a revert) but %d gas was handed back", post.errText, att.Left), where)
 		}
 	case endOK:
